@@ -132,4 +132,10 @@ theorem DiffTetNeg_div (v0 v1 v2 v3 : V3 ℝ) (f0 f1 f2 f3 : ℝ) (X : V3 ℝ) (
     push_cast
     ring
 
+
+/-! ### census of data-dependent decisions: the traced code took exactly the branches the model knows about -/
+theorem census_DiffTri_pcCount : Gen.DiffTri.pcCount = 1 := rfl
+theorem census_DiffTetPos_pcCount : Gen.DiffTetPos.pcCount = 2 := rfl
+theorem census_DiffTetNeg_pcCount : Gen.DiffTetNeg.pcCount = 3 := rfl
+
 end LapyVerif.Bridge
